@@ -49,6 +49,12 @@ def strategy(tier, mode=None):
         if c["part"] == "jtj":
             c["precalls"] = [{"fn": draw(st.sampled_from(["fisher_information", "gradient", "jtj", "sensitivity-full"])),
                               "factor": draw(st.sampled_from([0.8, 1.0, 1.25]))} for _ in range(draw(st.sampled_from([0, 0, 1, 2])))]
+        if c["part"] == "jtj" and c["target_param"] is not None and len(c["target_param"]) < len(c["model"]["params"]) \
+                and draw(st.booleans()):
+            # jtj(theta), then the user changes a parameter that is NOT among this object's targets on the shared model (such
+            # parameters live in the model by design), then jtj(theta) again with the very same theta: the second answer
+            # belongs to the new value
+            c["foreign_write"] = {"which": draw(st.integers(0, 3)), "factor": draw(st.sampled_from([0.5, 0.7, 1.5, 2.0]))}
         c["spread"] = None
         if c["part"] == "jtj" and not isinstance(c["weights"], list) and draw(st.integers(0, 2)) > 0:
             # the weighted JTJ is this part's subject: mostly non-scalar weights (per state, or per observation and state)
@@ -81,8 +87,15 @@ def oracle(case, rec):
     times = lossgen.times_of(case)
     cols = lossgen.obs_cols(case)
     th = lossgen.full_theta(case, free)
-    X, Sp = refsolve.reference_sensitivities(m, th, su["x0"], su["t0"], times)
     tp = case["target_param"] or m["params"]
+    fw = case.get("foreign_write") if case["part"] == "jtj" else None
+    if fw:
+        nontarget = [q for q in m["params"] if q not in tp]
+        fw_name = nontarget[fw["which"] % len(nontarget)]
+        fw_value = S.sig(th[m["params"].index(fw_name)] * fw["factor"], 5)
+        th = list(th)
+        th[m["params"].index(fw_name)] = fw_value
+    X, Sp = refsolve.reference_sensitivities(m, th, su["x0"], su["t0"], times)
     pidx = [m["params"].index(q) for q in tp]
     rec.label("part:" + case["part"], "free:%d" % nf, "obs:%d" % p)
     if case.get("small_scale"):
@@ -116,6 +129,10 @@ def oracle(case, rec):
                 # the earlier call is only there to leave state behind; whether IT works is not this property's subject
                 # (fisher_information raises a broadcasting ValueError with several observed states on the unchanged tree)
                 rec.label("precall-raised:%s:%s" % (pc["fn"], type(e).__name__))
+        if fw:
+            rec.label("jtj:same-theta-after-foreign-write-of-a-non-target-parameter")
+            call("C20/jtj-first", case, obj.jtj, np.array(free))
+            model.parameters = {fw_name: fw_value}
         got = np.asarray(call("C20/jtj", case, obj.jtj, np.array(free)), float)
         if got.shape != want.shape:
             raise PropertyViolation("C20/jtj/shape", "jtj has shape %s for %d free parameters" % (got.shape, nf), case)
